@@ -26,6 +26,18 @@ from pathlib import Path
 from src.core.types import Violation
 
 
+def _number_text(value: int | float) -> str:
+    """Text of the number for messages.
+
+    Integers beyond Python's int -> str conversion limit (thousands of digits) cannot be
+    rendered in decimal; they are shown in hexadecimal instead of failing the whole run.
+    """
+    try:
+        return str(value)
+    except ValueError:
+        return hex(int(value))
+
+
 class ViolationBuilder:
     """Builds violations for magic number detections."""
 
@@ -55,9 +67,10 @@ class ViolationBuilder:
         Returns:
             Violation object with details about the magic number
         """
-        message = f"Magic number {value} should be a named constant"
+        text = _number_text(value)
+        message = f"Magic number {text} should be a named constant"
 
-        suggestion = f"Extract {value} to a named constant (e.g., CONSTANT_NAME = {value})"
+        suggestion = f"Extract {text} to a named constant (e.g., CONSTANT_NAME = {text})"
 
         return Violation(
             rule_id=self.rule_id,
@@ -84,10 +97,11 @@ class ViolationBuilder:
         Returns:
             Violation object with details about the magic number
         """
-        message = f"Magic number {value} should be a named constant"
+        text = _number_text(value)
+        message = f"Magic number {text} should be a named constant"
 
         suggestion = (
-            f"Extract {value} to a named constant (e.g., const CONSTANT_NAME: i32 = {value})"
+            f"Extract {text} to a named constant (e.g., const CONSTANT_NAME: i32 = {text})"
         )
 
         return Violation(
@@ -115,9 +129,10 @@ class ViolationBuilder:
         Returns:
             Violation object with details about the magic number
         """
-        message = f"Magic number {value} should be a named constant"
+        text = _number_text(value)
+        message = f"Magic number {text} should be a named constant"
 
-        suggestion = f"Extract {value} to a named constant (e.g., const CONSTANT_NAME = {value})"
+        suggestion = f"Extract {text} to a named constant (e.g., const CONSTANT_NAME = {text})"
 
         return Violation(
             rule_id=self.rule_id,
